@@ -365,9 +365,12 @@ def write_evidence(pid, tier, seed, t0, units, kani, violations, known, undecide
         "obligations": len(counted),
         "discharged": len(discharged),
         "checker_cmd": "; ".join([u["cmd"] for u in units if u["cmd"]] + [k["cmd"] for k in kani if k.get("cmd")]),
-        "trusted_base": ["verus 0.2026.09.13 + z3", "kani 0.68 + cbmc 6.11 (thorough tier)",
-                         "tools/extract.py tokenizer and rewrite rules R1-R6 (every application logged below)"],
-        "functions_under_contract": sorted({"%s::%s" % (u["unit"], f["function"]) for u in units for f in u["functions"]}),
+        "trusted_base": ["verus 0.2026.09.13 + z3 (the only back end: no Kani / CBMC harness is registered, nothing is bounded)",
+                         "tools/extract.py tokenizer and rewrite rules R1-R13 (every application logged below under extracted_spans[].rewrites)",
+                         "thorough tier only: python3 sqlite3 (3.40) as the executing database of the witness sweeps, which are not counted as proof"],
+        # exec functions only: Verus also reports consts and spec / proof functions of the prelude, which are not code of /repo under contract
+        "functions_under_contract": sorted({"%s::%s" % (u["unit"], f["function"]) for u in units for f in u["functions"]
+                                            if f.get("mode", "exec") == "exec" and not f["function"].isupper()}),
         "obligation_list": obligations,
         "bounded_standins": [o["name"] for o in bounded],
         "failed": [o["name"] for o in obligations if o["status"] == "failed"],
